@@ -138,7 +138,7 @@ void _ZNSt9exceptionD2Ev(u8* s) { (void)s; } void _ZNSt9exceptionD1Ev(u8* s) { (
 u8* _ZNKSt13runtime_error4whatEv(u8* s) { return vp_exc_what(s); }
 u8* _ZNKSt11logic_error4whatEv(u8* s) { return vp_exc_what(s); }
 u8* _ZNKSt9exception4whatEv(u8* s) { return vp_exc_what(s); }
-#ifdef VP_DISPATCH_ru8p_u8p
+#if defined(VP_DISPATCH_ru8p_u8p) && !defined(VP_DISPATCH_CUSTOM_ru8p_u8p)
 u8* __ir_indirect_ru8p_u8p(u8* fp, u8* a0) { if (fp == (u8*)vp_exc_what) return vp_exc_what(a0); __ir_bad_indirect(); return 0; }
 #endif
 /* __throw_* helpers of libstdc++ */
